@@ -37,6 +37,7 @@ func init() {
 	register(hostileScn{})
 	register(clientScn{})
 	register(lifecycleScn{})
+	register(poolprogScn{})
 }
 
 // RunOpts are per-execution options that do not belong to the plan.
